@@ -127,12 +127,13 @@ Definition step_p (lg : Z) (s : st) (o : op) : st * outcome Z :=
   | CloseClient now => (close_client s now, Ok 0)
   | Stall => (upd_full s true, Ok 0)
   | Drain => (upd_full s false, Ok 0)
+  | ChanErr now => (timers_p lg now (chan_err s now), Ok 0)
   end.
 
 Definition op_ok (o : op) : Prop :=
   match o with
   | Subscribe now | Publish now _ _ | Avail now _ _ _ | Unavail now _ _ | Tick now
-  | DropSub now _ | DropPub now _ | CloseClient now => time_ok now
+  | DropSub now _ | DropPub now _ | CloseClient now | ChanErr now => time_ok now
   | Hold _ _ | Unhold _ | Stall | Drain => True
   end.
 
@@ -179,6 +180,14 @@ Proof.
   destruct (closing o); cbn; [constructor; [exact Hn|]|]; assumption.
 Qed.
 
+Lemma chan_err_wf s now : wf s -> time_ok now -> wf (chan_err s now).
+Proof.
+  intros Hwf Hn. unfold chan_err.
+  destruct Hwf as (Hc & Hl & Hr). split; [exact Hc|]. split; [|exact Hr]. cbn. apply Forall_app. split; [assumption|].
+  unfold closing_lists. induction (subs s) as [|o l IH]; cbn; [constructor|].
+  destruct (closing o); cbn; [constructor; [exact Hn|]|]; assumption.
+Qed.
+
 Lemma step_p_wf lg s o : wf s -> op_ok o -> wf (fst (step_p lg s o)).
 Proof.
   intros Hwf Ho. destruct o; cbn [step_p op_ok] in *.
@@ -198,6 +207,7 @@ Proof.
   - cbn [fst]. apply close_client_wf; assumption.
   - cbn [fst]. (eapply wf_same; [| | |exact Hwf]; reflexivity).
   - cbn [fst]. (eapply wf_same; [| | |exact Hwf]; reflexivity).
+  - cbn [fst]. apply timers_p_wf; [|assumption]. apply chan_err_wf; assumption.
 Qed.
 
 Lemma step_eq m lg s o : wf s -> time_ok lg -> op_ok o -> step m lg s o = Ok (step_p lg s o).
@@ -218,6 +228,7 @@ Proof.
   - reflexivity.
   - reflexivity.
   - reflexivity.
+  - rewrite timers_eq; [reflexivity| |assumption]. apply chan_err_wf; assumption.
 Qed.
 
 Lemma init_wf t0 cid : time_ok t0 -> wf (init t0 cid).
@@ -507,6 +518,37 @@ Proof.
     unfold closed_sub. destruct (closing b); cbn; lia.
 Qed.
 
+(* in a reachable state a subscription that does not hand over images at a close is not registered any more: the conductor
+   forgetting it (channel endpoint error) and the conductor clearing its maps (close) leave the same subscription objects *)
+Lemma chan_sub_closed_sub s : Inv s -> map chan_sub (subs s) = map closed_sub (subs s).
+Proof.
+  intros (_ & _ & C & D & _). apply map_ext_in. intros a Ha. unfold chan_sub, closed_sub. destruct (closing a) eqn:Ecl; [reflexivity|].
+  unfold closing in Ecl. destruct (so_inmap a) eqn:Ei.
+  - cbn [andb] in Ecl. destruct (so_closed a) eqn:Ec; [rewrite (D a Ha Ec) in Ei; discriminate|discriminate].
+  - destruct a; cbn in *; subst; reflexivity.
+Qed.
+
+Lemma Inv_chan s now : Inv s -> Inv (chan_err s now).
+Proof.
+  intros HI. unfold chan_err. rewrite (chan_sub_closed_sub s HI).
+  destruct HI as (A & B & C & D & E & F & G). destruct (closing_all (subs s) C D) as [H1 H2].
+  unfold Inv, live_oids, notified. cbn [subs cblog closed_oids noid nid].
+  split; [|split; [|split; [|split; [|split; [|split]]]]]; auto.
+  - intros x. rewrite H2. rewrite filter_app, map_app, cnt_app, closing_cbs_oids. specialize (A x). unfold live_oids, notified in A.
+    rewrite H1 in A. cbn [cnt]. lia.
+  - intros x. rewrite cnt_app. rewrite filter_app, map_app, cnt_app, closing_cbs_oids. fold (oids (closing_imgs (subs s))).
+    specialize (B x). unfold notified in B. lia.
+  - intros a Ha _. apply in_map_iff in Ha. destruct Ha as (b & Hb & Hin). subst. unfold closed_sub.
+    destruct (closing b) eqn:Ecl; [reflexivity|]. cbn [so_imgs]. apply C; [assumption|].
+    unfold closing in Ecl. destruct (so_inmap b) eqn:Ei; [|reflexivity]. cbn [andb] in Ecl.
+    destruct (so_closed b) eqn:Ec; [rewrite (D b Hin Ec) in Ei; discriminate|discriminate].
+  - intros a Ha _. apply in_map_iff in Ha. destruct Ha as (b & Hb & Hin). subst. unfold closed_sub. destruct (closing b); reflexivity.
+  - rewrite map_map. replace (map (fun x => so_reg (closed_sub x)) (subs s)) with (map so_reg (subs s)); [assumption|].
+    apply map_ext. intros a. unfold closed_sub. destruct (closing a); reflexivity.
+  - intros a Ha. apply in_map_iff in Ha. destruct Ha as (b & Hb & Hin). subst. specialize (F b Hin).
+    unfold closed_sub. destruct (closing b); cbn; lia.
+Qed.
+
 Lemma Inv_step lg s o : Inv s -> Inv (fst (step_p lg s o)).
 Proof.
   intros HI. destruct o; cbn [step_p].
@@ -524,6 +566,7 @@ Proof.
   - cbn [fst]. apply Inv_close. assumption.
   - cbn [fst]. eapply Inv_same; [| | | | |exact HI]; reflexivity.
   - cbn [fst]. eapply Inv_same; [| | | | |exact HI]; reflexivity.
+  - cbn [fst]. apply Inv_timers, Inv_chan. assumption.
 Qed.
 
 (* ---- what the invariant says ---- *)
@@ -775,6 +818,19 @@ Proof.
   - apply in_map_iff in A. destruct A as (q & Hq & Hin). subst. apply filter_In in Hin. right. right. right. exists q. tauto.
 Qed.
 
+Lemma in_use_chan s now k : in_use_P (chan_err s now) k -> in_use_P s k.
+Proof.
+  unfold chan_err, in_use_P. cbn [subs lingering clones pubs].
+  intros [(a & A & B)|[(l & A & B)|[H|H]]].
+  - apply in_map_iff in A. destruct A as (b & Hb & Hin). subst. unfold chan_sub in B.
+    destruct (closing b); cbn [so_imgs] in B; [destruct B as (i & [] & _)|]. left. exists b. auto.
+  - apply in_app_or in A. destruct A as [A|A]; [right; left; exists l; auto|].
+    unfold closing_lists in A. apply in_flat_map in A. destruct A as (b & Hb & Hin).
+    destruct (closing b); [|destruct Hin]. destruct Hin as [Hin|[]]. subst. left. exists b. auto.
+  - right. right. left. exact H.
+  - right. right. right. exact H.
+Qed.
+
 Lemma in_use_drop_pub s reg k : in_use_P (drop_pub s reg) k -> in_use_P s k.
 Proof.
   unfold drop_pub. destruct (find _ _) as [p|]; [|auto].
@@ -892,6 +948,7 @@ Proof.
   - cbn [fst]. eapply RInv_mono; [| |exact HI]; [|apply in_use_close]. unfold close_client. destruct (cclosed s); reflexivity.
   - cbn [fst]. (eapply RInv_mono; [| |exact HI]; [reflexivity|auto]).
   - cbn [fst]. (eapply RInv_mono; [| |exact HI]; [reflexivity|auto]).
+  - cbn [fst]. apply RInv_timers. eapply RInv_mono; [| |exact HI]; [reflexivity|apply in_use_chan].
 Qed.
 
 (* ---- the linger guarantee ---- *)
@@ -901,7 +958,7 @@ Definition fresh_since (t0 k : Z) (s : st) : Prop :=
 Definition op_time (o : op) : option Z :=
   match o with
   | Subscribe now | Publish now _ _ | Avail now _ _ _ | Unavail now _ _ | Tick now
-  | DropSub now _ | DropPub now _ | CloseClient now => Some now
+  | DropSub now _ | DropPub now _ | CloseClient now | ChanErr now => Some now
   | Hold _ _ | Unhold _ | Stall | Drain => None
   end.
 Definition within (t0 lg : Z) (o : op) : Prop := match op_time o with Some now => t0 <= now <= t0 + lg | None => True end.
@@ -960,6 +1017,7 @@ Proof.
   - cbn [fst]. eapply fresh_same; [|exact H]. unfold close_client. destruct (cclosed s); reflexivity.
   - cbn [fst]. eapply fresh_same; [|exact H]. reflexivity.
   - cbn [fst]. eapply fresh_same; [|exact H]. reflexivity.
+  - cbn [fst]. apply fresh_timers; [assumption|]. eapply fresh_same; [|exact H]. reflexivity.
 Qed.
 
 Lemma fresh_has_key t0 k s : fresh_since t0 k s -> has_key k (registry s) = true.
